@@ -360,12 +360,20 @@ func (ex *Exec) binary(st *State, x *ast.BinaryExpr, k func(*State, Val)) {
 			if x.Op == token.QUO || x.Op == token.REM {
 				if l.S.Kind == KInt {
 					ex.safety(st, "safe.div", sNot(sEq(r.T, "0")), "division by zero", x.Pos(), func(st *State) {
-						k(st, ex.binop(st, x.Op.String(), l, r, x.Pos(), ty))
+						v := ex.binop(st, x.Op.String(), l, r, x.Pos(), ty)
+						if x.Op == token.REM {
+							// redundant hint (a theorem of integer arithmetic): 0 <= a < 2b  ==>  a % b == (a < b ? a : a-b)
+							v.T = ex.w.define("rem", sInt, v.T)
+							st.assume(fmt.Sprintf("(=> (and (> %s 0) (<= 0 %s) (< %s (* 2 %s))) (= %s (ite (< %s %s) %s (- %s %s))))", r.T, l.T, l.T, r.T, v.T, l.T, r.T, l.T, l.T, r.T))
+							st.assume(fmt.Sprintf("(=> (and (> %s 0) (< %s 0) (>= %s (- %s))) (= %s (ite (= %s (- %s)) 0 %s)))", r.T, l.T, l.T, r.T, v.T, l.T, r.T, l.T))
+						}
+						k(st, v)
 					})
 					return
 				}
 			}
-			k(st, ex.binop(st, x.Op.String(), l, r, x.Pos(), ty))
+			v := ex.binop(st, x.Op.String(), l, r, x.Pos(), ty)
+			k(st, v)
 		})
 	})
 }
